@@ -221,7 +221,8 @@ PROPS = {
         level_note=_MODELLED + "The library's terminal shortcuts and compute table are not mirrored (C07)."),
     "C05": dict(
         gens=[("arith", gen.gen_C05, 0.8), ("reuse-arith", lambda r: gen.gen_reuse(r, "arith"), 0.4),
-              ("evplus", gen.gen_C05_ev, 0.4), ("neutral-mixed-rules", gen.gen_C05_neutral, 0.4)],
+              ("evplus", gen.gen_C05_ev, 0.4), ("neutral-mixed-rules", gen.gen_C05_neutral, 0.4),
+              ("evstar", gen.gen_evstar, 0.3)],
         quick=60, thorough=600,
         level_text="Proved: element-wise binary/unary operations are pointwise for an arbitrary scalar function "
                    "(instantiated with the catalogue in Model/Scalar.v). Tie: tables+dumps for "
@@ -231,7 +232,8 @@ PROPS = {
                    "documented errors) are applied to tables and the result is compared by table and canonical "
                    "EV+ diagram; EV* not covered."),
     "C10": dict(
-        gens=[("copy", gen.gen_C10, 0.8), ("copy-ev", gen.gen_C10_ev, 0.5)], quick=60, thorough=600,
+        gens=[("copy", gen.gen_C10, 0.8), ("copy-ev", gen.gen_C10_ev, 0.5), ("evstar", gen.gen_evstar, 0.3)],
+        quick=60, thorough=600,
         level_text="Proved: copy is the pointwise scalar conversion and copy-there-and-back is the identity "
                    "when the conversion is invertible on the values taken (via canonicity). Tie: every ordered "
                    "pair of MT forest kinds over the same domain.",
